@@ -5,6 +5,7 @@ import (
 	"fmt"
 	"time"
 
+	"github.com/pingcap/kvproto/pkg/kvrpcpb"
 	"github.com/tikv/client-go/v2/tikv"
 
 	"github.com/tikv/client-go/v2/tikvrpc"
@@ -46,10 +47,10 @@ func ExploredRecoveryWith(thorough bool, keys []string, actor string) []Explored
 				ops := []txnh.Op{{Kind: "set", Key: "a"}, {Kind: "set", Key: "b"}, {Kind: "set", Key: "c"}, {Kind: "commit"}}
 				name := fmt.Sprintf("%s/%s/%s/set(a);set(b);set(c)/recovery=explored-%s", bk.Name, lo.Name, m, actor)
 				mk := func() *txnh.TxnScenario {
-					started := false
+					started, conflicted := false, false
 					sc := &txnh.TxnScenario{ID: name, NewBackend: func() txnh.Backend { return bk.New(lo.Splits) }, Keys: keys,
 						Progs: [][]txnh.Program{{{Mode: m, Ops: ops}}}}
-					sc.SetupFn = func(s *txnh.TxnScenario) { started = false }
+					sc.SetupFn = func(s *txnh.TxnScenario) { started, conflicted = false, false }
 					sc.MenuFn = func(s *txnh.TxnScenario, e *sched.Event) []sched.Dev {
 						if e.Actor != 0 && started && e.Kind == sched.KRPC {
 							// the recovering reader: a region split right before one of its status-check /
@@ -68,6 +69,22 @@ func ExploredRecoveryWith(thorough bool, keys []string, actor string) []Explored
 						if e.Actor != 0 || s.W.Crashed(0) {
 							return nil
 						}
+						if actor == "reader-after-failed-commit" {
+							// no crash: the store answers one prewrite with a write conflict (a definite failure of
+							// Commit); the committer's asynchronous clean-up then races with the reader
+							req, _ := e.Payload.(*tikvrpc.Request)
+							if e.Kind == sched.KRPC && req != nil && req.Type == tikvrpc.CmdPrewrite && !conflicted {
+								return []sched.Dev{{Name: "answer-write-conflict", Kind: txnh.DevAnswer, Arg: func(r *tikvrpc.Request) *tikvrpc.Response {
+									conflicted = true
+									q := r.Prewrite()
+									k := q.Mutations[len(q.Mutations)-1].Key
+									return &tikvrpc.Response{Resp: &kvrpcpb.PrewriteResponse{Errors: []*kvrpcpb.KeyError{{Conflict: &kvrpcpb.WriteConflict{
+										StartTs: q.StartVersion, ConflictTs: q.StartVersion + 1, ConflictCommitTs: q.StartVersion + 2, Key: k, Primary: q.PrimaryLock,
+										Reason: kvrpcpb.WriteConflict_Optimistic}}}}}
+								}}}
+							}
+							return nil
+						}
 						switch e.Kind {
 						case sched.KRPC:
 							return []sched.Dev{{Name: "crash-undelivered", Kind: txnh.DevCrash}, {Name: "crash-delivered", Kind: txnh.DevCrashDlv}}
@@ -77,7 +94,16 @@ func ExploredRecoveryWith(thorough bool, keys []string, actor string) []Explored
 						return nil
 					}
 					sc.ExtraFn = func(s *txnh.TxnScenario) []sched.Choice {
-						if started || !s.W.Crashed(0) {
+						if started {
+							return nil
+						}
+						if actor == "reader-after-failed-commit" {
+							// the reader may arrive as soon as Commit has returned its (definite) error, while the
+							// committer's clean-up is still on its way
+							if o := s.H.Txns[0].Outcome; !conflicted || (o != "failed" && o != "rolledback") {
+								return nil
+							}
+						} else if !s.W.Crashed(0) {
 							return nil
 						}
 						if actor == "gc" {
